@@ -60,7 +60,15 @@ EXPLANATION = (
     'NOT decided: pointwise agreement with Cargo on concrete requirement x version strings (e.g. Cargo\'s stricter same-version rule for '
     'pre-release matching, pinned otherwise by the project tests); cfg name/value conflation of the Dict[str, str] configuration '
     '(`cfg(target_os)` with target_os="linux"; `cfg(unix = "")`), which is a property of the representation, not of the evaluator; '
-    'search-loop / helper spellings outside the recognised normal forms (undecided); escapes inside cfg string literals.')
+    'search-loop / helper spellings outside the recognised normal forms (undecided); escapes inside cfg string literals; the consumer side in '
+    'manifest.py (Dependency.update_version dropping the lazy_property caches of `api` and `accepts_version` after the requirement changes: a '
+    'sequence-dependent cache-staleness question about instance state, outside every clause on cargo_parse/SemVer/cfg themselves - seed round 7/3); '
+    'a lexer rewritten as a regex search loop and rich comparisons derived by functools.total_ordering from a `<`-specialised core (undecided).  '
+    'Round 13 normal forms: a functools.singledispatch generic function with module-level overloads is the isinstance chain it dispatches to '
+    '(subclasses first); `K(out, flag)` with a plain class K whose __init__ only stores its parameters and whose __call__ never writes them is the '
+    'closure / functools.partial it stands for; a token regex without a build alternative is read in a closed world (not group 1 = group 2) and then '
+    'requires the scanned text to be the input cut at the first "+" (finditer over the raw input tokenises the build metadata: violation); a `for` '
+    'over the token stream is a read per turn, and leaving it at the end of input without an else clause that raises is end-of-input ignored (R4b).')
 ASSUMPTIONS = ['operator.lt/gt/le/ge/eq/ne, Python int/str/list comparison, str.startswith/endswith/strip/isdigit, any/all behave as documented',
                're alternation/finditer semantics as documented; group n is non-empty exactly when alternative n matched',
                'SemVer.specified_count ranges over 1..3 for a requirement; dataclasses generate positional constructors in field order']
@@ -3590,6 +3598,26 @@ def _trace(fn: ast.FunctionDef, p: Path, expect: _Expect) -> T.Optional[T.Tuple[
                 pass    # payload assertions: discharged by the lexer facts (R4a)
             else:
                 raise Undecided(f'{fn.name}: test outside the token vocabulary: {a!r}')
+            continue
+        if ev.kind == 'iter' and isinstance(st, ast.For) and norm(st.iter) == arg:
+            # `for <item> in <stream>`: one turn is a read bound to the target; leaving the loop because the stream is exhausted is NOT a
+            # read that fails (next() raises StopIteration, which parse() turns into MesonException): the path goes on as if nothing happened
+            if ev.val == 'done':
+                if st.orelse and p.outcome == 'raise':
+                    return None     # end of input rejected by the else clause: the counterpart of next() raising (not a path of the grammar; exception class: R4a)
+                tr.append(('end-of-input-ignored', reads))
+                continue
+            t = st.target
+            if not (isinstance(t, ast.Tuple) and len(t.elts) == 2 and isinstance(t.elts[0], ast.Tuple) and len(t.elts[0].elts) == 2
+                    and all(isinstance(x, ast.Name) for x in list(t.elts[0].elts) + [t.elts[1]])):
+                raise Undecided(f'{fn.name}: read target {short(t)}')
+            reads += 1
+            cur = reads
+            env[t.elts[0].elts[0].id] = ast.Name(id=f'tok{reads}', ctx=ast.Load())     # type: ignore[attr-defined]
+            env[t.elts[0].elts[1].id] = ast.Name(id=f'val{reads}', ctx=ast.Load())     # type: ignore[attr-defined]
+            if t.elts[1].id != '_':     # type: ignore[attr-defined]
+                env[t.elts[1].id] = ast.Name(id=f'look{reads}', ctx=ast.Load())     # type: ignore[attr-defined]
+            tr.append(('read', reads))
             continue
         if ev.kind != 'stmt' or st is None:
             raise Undecided(f'{fn.name}: event {ev!r}')
